@@ -179,12 +179,27 @@ static std::string smf_with_stack_loops() {
     add(20, 0xFF, 0x06, text("loopStart=3")); add(10, 0x90, 0, {62, 100}); add(40, 0x80, 0, {62, 0}); add(5, 0xFF, 0x06, text("loopEnd=0")); add(30, 0xFF, 0x2F, {});
     s.tracks = {t}; smf_ticks(s); return smf_write(s);
 }
+// SMF that spells the sequencer's internal event codes (FF E1..E7) directly, each with the payload that code expects
+static std::string smf_with_internal_codes() {
+    SSong s; s.format = 0; s.division = 96; STrack t; auto add = [&](uint32_t d, uint8_t st, uint8_t meta, std::vector<uint8_t> data) { SEv e; e.delta = d; e.status = st; e.meta = meta; e.data = data; t.ev.push_back(e); };
+    add(0, 0xFF, 0xE4, {2}); add(10, 0x90, 0, {60, 100}); add(0, 0xFF, 0xE7, {5}); add(20, 0x80, 0, {60, 0}); add(0, 0xFF, 0xE3, {0x20, 0x01}); add(5, 0xFF, 0xE5, {}); add(5, 0xFF, 0xE1, {}); add(10, 0x90, 0, {62, 90});
+    add(10, 0x80, 0, {62, 0}); add(0, 0xFF, 0xE2, {}); add(20, 0xFF, 0x2F, {});
+    s.tracks = {t}; smf_ticks(s); return smf_write(s);
+}
+// SMF whose tracks switch between n distinct output ports (device-name meta FF 09): every new name adds 16 MIDI channels
+static std::string smf_with_ports(int n) {
+    SSong s; s.format = 1; s.division = 96; STrack t0, t1; auto add = [](STrack &t, uint32_t d, uint8_t st, uint8_t meta, std::vector<uint8_t> data) { SEv e; e.delta = d; e.status = st; e.meta = meta; e.data = data; t.ev.push_back(e); };
+    for(int i = 0; i < n; i++) { STrack &t = (i & 1) ? t1 : t0; add(t, i ? 3 : 0, 0xFF, 0x09, {'p', (uint8_t)('A' + i / 26), (uint8_t)('a' + i % 26)}); add(t, 0, (uint8_t)(0x90 | (i & 15)), 0, {(uint8_t)(40 + i % 40), 100}); add(t, 2, (uint8_t)(0x80 | (i & 15)), 0, {(uint8_t)(40 + i % 40), 0}); }
+    add(t0, 10, 0xFF, 0x2F, {}); add(t1, 10, 0xFF, 0x2F, {});
+    s.tracks = {t0, t1}; smf_ticks(s); return smf_write(s);
+}
 static std::vector<std::string> valid_files() {
     std::vector<std::string> v; std::string smf = smf_with_everything();
     v.push_back(smf); v.push_back(tiny_smf(0, 60, 3)); v.push_back(wrap_rmi(tiny_smf(9, 36, 4)));
     { std::string g("GMF\x01\0\0\0", 7); g += tiny_smf(0, 50, 4).substr(22); v.push_back(g); }
     v.push_back(small_mus()); v.push_back(small_xmi(1)); v.push_back(small_xmi(3)); v.push_back(xmi_with_loops()); v.push_back(smf_with_stack_loops());
     v.push_back(std::string("CTMF\1\1\x28\0\x34\0\xC0\0\0\0\0\0\0\0\0\0\0\0\0\0", 24) + std::string(40, '\0'));
+    v.push_back(smf_with_internal_codes()); v.push_back(smf_with_ports(3)); v.push_back(smf_with_ports(15)); v.push_back(smf_with_ports(16)); v.push_back(smf_with_ports(17)); v.push_back(smf_with_ports(40));
     return v;
 }
 static std::string mutate(std::string f, int kind, int pos, int val) {
@@ -206,7 +221,9 @@ static std::string mutate(std::string f, int kind, int pos, int val) {
     case 10: f.append((size_t)val % 32, (char)(val >> 5)); break;           // trailing bytes
     case 11: { // declared length of a meta event (FF tt ll): 0, 1, 2, longer than the data, multi-byte
         std::vector<size_t> at; for(size_t i = 0; i + 2 < f.size(); i++) if((unsigned char)f[i] == 0xFF && (unsigned char)f[i + 1] < 0x80) at.push_back(i);
-        if(!at.empty()) { size_t i = at[p % at.size()]; static const int ln[] = {0, 1, 2, 4, 0x7F, 0x81}; f[i + 2] = (char)ln[(size_t)val % 6]; if((val >> 4) & 1) f[i + 1] = (char)0x51; }
+        if(!at.empty()) { size_t i = at[p % at.size()]; static const int ln[] = {0, 1, 2, 4, 0x7F, 0x81}; f[i + 2] = (char)ln[(size_t)val % 6];
+            // ... and optionally its type: tempo, or one of the codes the sequencer uses internally for loop points, callbacks and raw chip writes
+            static const int ty[] = {-1, 0x51, -1, 0x51, 0x51, 0xE1, 0xE2, 0xE3, 0xE4, 0xE5, 0xE6, 0xE7, 0x09, 0x2F, 0x06, 0x7F}; int t = ty[(size_t)(val >> 4) % 16]; if(t >= 0) f[i + 1] = (char)t; }
         break; }
     case 12: { // XMI: a branch table (RBRN) of n entries, ids repeating, in front of the first EVNT chunk
         size_t at = f.find("EVNT"); if(at == std::string::npos) break;
